@@ -37,10 +37,16 @@ func main() {
 	do("cfg")
 	R := r.R
 	seqs := r.Scale(60, 1200)
-	for s := 0; s < seqs; s++ {
+	// after the random sequences (their stream stays what it was): directed sequences, see below
+	const nDirected = 8
+	for s := 0; s < seqs+nDirected; s++ {
 		q := s
+		directed := s >= seqs
 		history = history[:1]
 		n := R.Range(4, 7)
+		if directed {
+			n = 4
+		}
 		powers := make([]int64, n)
 		pm := R.Intn(3)
 		for i := range powers {
@@ -54,6 +60,12 @@ func main() {
 			}
 		}
 		me := R.Intn(n)
+		if directed {
+			me = s % 4
+			for i := range powers {
+				powers[i] = 1
+			}
+		}
 		var ps, as []string
 		total := int64(0)
 		for _, p := range powers {
@@ -67,6 +79,9 @@ func main() {
 		}
 		tmp.Close()
 		skip := R.Chance(30)
+		if directed {
+			skip = false
+		}
 		res := do(fmt.Sprintf("init n=%d me=%d powers=%s skip=%s addrs=%s", n, me, strings.Join(ps, ","), vh.B01(skip), strings.Join(as, ",")))
 		r.Count(fmt.Sprintf("n=%d.powers=%d", n, pm))
 		ledgerOff := false // after a torn restart the node has legitimately forgotten an input the ledger still has
@@ -387,6 +402,112 @@ func main() {
 			}
 		}
 		actions := R.Range(15, 70)
+		if directed {
+			// The validator locks a block in round 0, finds no polka in round 1 and moves on; the prevote
+			// that completes round 1's polka FOR THE LOCKED BLOCK arrives late; round 2's proposer offers
+			// ANOTHER block with that round as its proof-of-lock round. The proposal is complete (a polka
+			// exists in round 1) but the polka is not for the proposed block: the validator still prevotes
+			// its lock. The ledger and the model judge every step.
+			actions = 0
+			var o []int
+			for v := 0; v < n; v++ {
+				if v != me {
+					o = append(o, v)
+				}
+			}
+			field := func(name string) string {
+				for _, x := range strings.Fields(res) {
+					if strings.HasPrefix(x, name+"=") {
+						return x[len(name)+1:]
+					}
+				}
+				return "-"
+			}
+			h, _, _ := state()
+			step(fmt.Sprintf("timeout %d 0 NewHeight", h))
+			step("drain")
+			blk := field("pb")
+			if blk == "-" {
+				blk = "D0"
+				pi := proposerIdx()
+				step(fmt.Sprintf("mkblock D0 proposer=%d valid=1", pi))
+				step(fmt.Sprintf("proposal D0 h=%d r=0 pol=-1 polblock=- signer=%d bad=0", h, pi))
+				// (the round a block part is tagged with is the SENDER's round: any value is accepted for
+				// the node's height; in WAL mode the parts arrive tagged with another round)
+				pr := 0
+				if r.Mode == "wal" {
+					pr = 1 + me%2
+				}
+				step(fmt.Sprintf("parts D0 h=%d r=%d", h, pr))
+				step("drain")
+			}
+			peerVote(o[0], 1, 0, blk, h)
+			peerVote(o[1], 1, 0, blk, h)
+			step("drain") // polka: precommit and lock
+			if r.Mode == "wal" && !dead {
+				// C07: killed right after the lock was taken; the replay restores lock, block, votes and step
+				cut := func(x string) string { return strings.Split(strings.Split(x, " q=")[0], " | ")[0] }
+				b0, v0 := do("digest"), do("votes")
+				step("restart torn=0")
+				if !dead {
+					b1, v1 := do("digest"), do("votes")
+					r.Count("directed.kill-after-lock")
+					if cut(b0) != cut(b1) || v0 != v1 {
+						fail("replayed-state-differs-from-pre-crash-state", "kill right after the validator locked a block (its parts had arrived tagged with another round), restart, WAL replay: the round state or the votes differ from the state before the kill", cut(b1)+" "+v1, cut(b0)+" "+v0)
+					}
+				}
+			}
+			peerVote(o[0], 2, 0, "-", h)
+			peerVote(o[1], 2, 0, "-", h)
+			step("drain")
+			step(fmt.Sprintf("timeout %d 0 PrecommitWait", h))
+			step("drain") // round 1
+			step(fmt.Sprintf("timeout %d 1 Propose", h))
+			step("drain") // prevotes the lock
+			variant := (s - seqs) / 4
+			if variant == 1 {
+				// second shape: round 1's votes go to ANOTHER block; the prevote that completes that polka
+				// arrives after the validator has left round 1. A polka for something else in a round after
+				// the lock releases the lock - also when it completes late.
+				step(fmt.Sprintf("mkblock D1 proposer=%d valid=1", proposerIdx()))
+				step("drain") // (the generator reads the node's height from the last digest)
+				peerVote(o[0], 1, 1, "D1", h)
+				peerVote(o[1], 1, 1, "D1", h)
+			} else {
+				peerVote(o[0], 1, 1, blk, h)
+				peerVote(o[1], 1, 1, "-", h)
+			}
+			step("drain")
+			step(fmt.Sprintf("timeout %d 1 PrevoteWait", h))
+			step("drain") // no polka: precommit nil
+			peerVote(o[0], 2, 1, "-", h)
+			peerVote(o[1], 2, 1, "-", h)
+			step("drain")
+			step(fmt.Sprintf("timeout %d 1 PrecommitWait", h))
+			step("drain")                // round 2
+			if variant == 1 {
+				peerVote(o[2], 1, 1, "D1", h) // late: completes round 1's polka for the other block
+				step("drain")
+				step(fmt.Sprintf("timeout %d 2 Propose", h))
+				step("drain")
+				r.Count("directed.late-polka-for-another-block-releases-the-lock.lb=" + field("lb"))
+				continue
+			}
+			peerVote(o[2], 1, 1, blk, h) // late: completes round 1's polka for the locked block
+			step("drain")
+			_, rd2, _ := state()
+			if pi := proposerIdx(); !dead && rd2 == 2 && pi != me && field("lb") == blk {
+				step(fmt.Sprintf("mkblock D1 proposer=%d valid=1", pi))
+				step(fmt.Sprintf("proposal D1 h=%d r=2 pol=1 polblock=%s signer=%d bad=0", h, blk, pi))
+				step(fmt.Sprintf("parts D1 h=%d r=2", h))
+				step("drain")
+				step(fmt.Sprintf("timeout %d 2 Propose", h))
+				step("drain")
+				r.Count("directed.late-polka-for-the-lock-then-proposal-with-pol.ran")
+			} else {
+				r.Count("directed.late-polka-for-the-lock-then-proposal-with-pol.skipped")
+			}
+		}
 		for a := 0; a < actions; a++ {
 			if dead {
 				// deliberate PanicConsensus/PanicSanity (e.g. +2/3 prevotes for an invalid block needs
